@@ -63,7 +63,7 @@ def plan(pid, tier):
         jobs = [arena_job("histories-reset", "reset", 6, 3, 1, 45, tier)] if q else [arena_job("histories-reset-d4", "reset", 6, 4, 1, 500, tier), arena_job("histories-reset-d3-dev2", "reset", 6, 3, 2, 200, tier)]
         return {"level": "model_checking", "jobs": jobs, "owns_crashes": False, "rule": RULE_ARENA, "assumptions": ARENA_ASSUME, "bounds": {"depth": 3 if q else 4, "deviations": 1 if q else 2}}
     if pid == "C07":
-        jobs = [arena_job("histories-limit", "limit", 7, 3, 1, 45, tier)] if q else [arena_job("histories-limit-d4", "limit", 7, 4, 1, 500, tier), arena_job("histories-limit-d3-dev2", "limit", 7, 3, 2, 200, tier)]
+        jobs = [arena_job("histories-limit", "limit", 7, 3, 1, 45, tier), arena_job("histories-limit-d4", "limit", 7, 4, 1, 45, tier, min_aligns="1,16")] if q else [arena_job("histories-limit-d4", "limit", 7, 4, 1, 500, tier), arena_job("histories-limit-d3-dev2", "limit", 7, 3, 2, 200, tier)]
         return {"level": "model_checking", "jobs": jobs, "owns_crashes": False, "rule": RULE_ARENA, "assumptions": ARENA_ASSUME, "bounds": {"depth": 3 if q else 4, "deviations": 1 if q else 2}}
     if pid == "C08":
         jobs = [arena_job("histories-core", "core", 8, 3, 1, 45, tier)] if q else [arena_job("histories-core-d3-dev2", "core", 8, 3, 2, 300, tier), arena_job("histories-ledger-d4", "ledger", 8, 4, 1, 400, tier, min_aligns="1,16"), arena_job("histories-limit-d4", "limit", 8, 4, 1, 300, tier)]
